@@ -216,6 +216,48 @@ theorem fresh_loop_variable (fo : FloatOps) (n : Nat) (ctx : Ctx) (v : String) (
 theorem local_declares_fresh_cell (v : Val) (s : Store) (hm : s.Main) :
     Evals (allocCell v) s (.ok s.cells.size) { s with cells := s.cells.push v } := evals_allocCell v s hm
 
+/-! ### `__index` / `__newindex` chains -/
+
+/-- one stage of an `__index` chain ending in a function: the handler is called with the table being indexed AT THIS
+    STAGE (the one whose raw lookup failed) and the key -/
+theorem index_function_receives_indexed_table (fo : FloatOps) (n : Nat) (dyn : Dyn) (a fa : Nat) (k : Val)
+    {s t s1 s2 r s3}
+    (hraw : Evals (getTable a) s (.ok t) s1) (hmiss : t.get k.normKey = .nil)
+    (hmeta : Evals (metaOf (.table a) "__index") s1 (.ok (.func fa)) s2)
+    (hcall : Evals ((evalN fo n).call dyn (.func fa) [.table a, k]) s2 (.ok r) s3) :
+    Evals ((evalN fo (n + 1)).index dyn (.table a) k) s (.ok (r.headD .nil)) s3 := by
+  show Evals (stepIndex (evalN fo n) dyn (.table a) k) s _ s3
+  unfold stepIndex call1
+  refine evals_bind_ok hraw ?_
+  simp only [hmiss, ne_eq, not_true_eq_false, ↓reduceIte]
+  exact evals_bind_ok hmeta (evals_bind_ok hcall (evals_pure _ _))
+
+/-- one stage of an `__index` chain through a table: indexing continues as a regular indexing of that table, which
+    from then on is the table "being indexed" (the original object is forgotten) -/
+theorem index_table_step_restarts (fo : FloatOps) (n : Nat) (dyn : Dyn) (a b : Nat) (k : Val)
+    {s t s1 s2 r s3}
+    (hraw : Evals (getTable a) s (.ok t) s1) (hmiss : t.get k.normKey = .nil)
+    (hmeta : Evals (metaOf (.table a) "__index") s1 (.ok (.table b)) s2)
+    (hnext : Evals ((evalN fo n).index dyn (.table b) k) s2 r s3) :
+    Evals ((evalN fo (n + 1)).index dyn (.table a) k) s r s3 := by
+  show Evals (stepIndex (evalN fo n) dyn (.table a) k) s _ s3
+  unfold stepIndex
+  refine evals_bind_ok hraw ?_
+  simp only [hmiss, ne_eq, not_true_eq_false, ↓reduceIte]
+  exact evals_bind_ok hmeta hnext
+
+/-- the same for assignment: a `__newindex` function is called with the table reached at this stage -/
+theorem newindex_function_receives_indexed_table (fo : FloatOps) (n : Nat) (dyn : Dyn) (a fa : Nat) (k v : Val)
+    {s t s1 s2 r s3}
+    (hraw : Evals (getTable a) s (.ok t) s1) (hmiss : t.get k.normKey = .nil)
+    (hmeta : Evals (metaOf (.table a) "__newindex") s1 (.ok (.func fa)) s2)
+    (hcall : Evals ((evalN fo n).call dyn (.func fa) [.table a, k, v]) s2 (.ok r) s3) :
+    Evals ((evalN fo (n + 1)).setindex dyn (.table a) k v) s (.ok ()) s3 := by
+  show Evals (stepSetIndex (evalN fo n) dyn (.table a) k v) s _ s3
+  unfold stepSetIndex
+  refine evals_bind_ok hraw ?_
+  simp only [hmiss, ne_eq, not_true_eq_false, ↓reduceIte]
+  exact evals_bind_ok hmeta (evals_bind_ok hcall (evals_pure _ _))
 /-! ### goto and tail calls -/
 
 /-- `goto_continue_fresh_local`: a `goto l` to a label of the enclosing block (index `k`, with `d` locals of the
@@ -440,5 +482,18 @@ example : (match run default 60 [.local_ 1 [("acc", .none)] [.int 0#64],
              .return_ 5 [.var "acc"]] [] with
            | .done rets _ => rets
            | _ => []) = [.int 123#64] := by decide +kernel
+
+def strE (s : String) : Expr := .str s.toUTF8
+def setmt (t m : Expr) : Expr := .call (.var "setmetatable") [t, m]
+
+/-- `local proto = setmetatable({}, {__index = function(t, k) return t end}); local obj = setmetatable({}, {__index = proto});
+    return obj.x == proto, obj.x == obj` gives `true, false`: the handler receives the table reached in the chain -/
+example : (match run default 40 [
+      .local_ 1 [("proto", .none)] [setmt (.table []) (.table [.named (strE "__index") (.func (.mk ["t", "k"] false [.return_ 1 [.var "t"]]))])],
+      .local_ 2 [("obj", .none)] [setmt (.table []) (.table [.named (strE "__index") (.var "proto")])],
+      .return_ 3 [.bin .eq (.index (.var "obj") (strE "x")) (.var "proto"), .bin .eq (.index (.var "obj") (strE "x")) (.var "obj")]] [] with
+    | .done rets _ => rets
+    | _ => []) = [.bool true, .bool false] := by decide +kernel
+
 
 end GoluaVerif.Props.C01
